@@ -17,40 +17,40 @@ CHECKS = {
    text="Seeded state-aware sequences over all 22 procedures are executed on the real server and on a reference model in lock-step; every reply and periodic whole-tree dumps (also after restarts) must agree. Restart included: the real cmd/go-nfsd binary (built without the verif tag) behind a fake port mapper, on a file disk, driven over TCP, with SIGKILL/SIGINT restarts on its disk file.",
    note="reference model conventions of DESIGN §2.2; inputs are sampled", ref="§4 C02"),
  "C03": dict(cat="exploration", engine="conc", tech="recorded concurrent histories checked for linearizability with porcupine against the reference model, schedules widened by seeded yields at lock/commit hooks and by directed parking of one request at a transaction abort or inside a disk read",
-   text="Many short conflicting histories (3-4 clients) recorded at the client boundary, checked by porcupine against the sequential reference; final state included as a read. Directed histories park one request at its n-th abort or inside its n-th disk read (holding its locks and cache slots) while other requests and a sweep over more inodes than the inode cache holds run against it.",
+   text="Many short conflicting histories (3-4 clients) recorded at the client boundary, checked by porcupine against the sequential reference; final state included as a read. Directed histories park one request at its n-th abort or inside its n-th disk read (holding its locks and cache slots) while other requests and a sweep over more inodes than the inode cache holds run against it. Wide-root histories: whole listings of a two-block root next to removals/creations at both ends of it.",
    note="short histories (<= 24 ops); schedules are whatever the Go scheduler plus injected yields produce", ref="§4 C03"),
  "C04": dict(cat="exploration", engine="seq+crash+conc", tech="structural invariant monitor (fsck with the repository's own decoders) at quiescent points and on recovered crash images",
    text="fsck of the logical disk after every operation of seeded sequences, after concurrent histories and on crash images.",
    note="decoders of the repository are trusted (a self-consistent format change is not an alarm)", ref="§4 C04"),
  "C05": dict(cat="exploration", engine="seq+crash", tech="conservation monitor (marked = reachable, allocators = bitmaps) at shrinker-idle quiescence and after crash recovery",
-   text="Build-then-delete sequences with conservation checks at quiescence, after restarts, after deleting everything, and on images cut inside multi-transaction frees followed by reuse of the numbers.",
+   text="Build-then-delete sequences with conservation checks at quiescence, after restarts, after deleting everything, and on images cut inside multi-transaction frees followed by reuse of the numbers. Also: an orderly shutdown with three background frees in flight, 72 truncations whose shrinker threads are held in flight together, sparse files with a missing second-level index range.",
    note="in-memory allocator bitmaps are read with reflect/unsafe at quiescent points", ref="§4 C05"),
  "C06": dict(cat="exploration", engine="lock", tech="lock-order / wait-for trace monitor over hooked inode-lock acquisitions (census + concurrent stress), bounded-retry counter",
-   text="Every inode-lock request is observed with the locks already held: definite wait-for cycles and self-waits are detected before blocking, the accumulated lock-order graph must be acyclic, and retries are bounded in logical steps.",
+   text="Every inode-lock request is observed with the locks already held: definite wait-for cycles and self-waits are detected before blocking, the accumulated lock-order graph must be acyclic, and retries are bounded in logical steps. Background-free sequences (seven big frees, orderly shutdown with frees in flight, 72 frees held in flight) run under the monitor as well; a request for a lock held by an earlier transaction of the same goroutine is a definite self-deadlock.",
    note="only inode locks are hooked; the one other lock that requests wait on (Nfs.renameMu, serializing cross-directory renames) is covered by the progress-based wedge detector, not by the wait-for graph; unbounded liveness is replaced by the logical criteria of DESIGN §2.6", ref="§4 C06"),
  "C07": dict(cat="fault_enumeration", engine="crash", tech="crash-image enumeration with stability-aware lower bounds + reply monitor for committed level and write verifier",
    text="Write-heavy traces mixing UNSTABLE/DATA_SYNC/FILE_SYNC, COMMIT and metadata operations (also big truncations and SETATTRs that change nothing after unstable data) are cut at every point; concurrent writers with journal-rejected requests next to them; commit-gate runs; the recovered state must be a prefix containing everything acknowledged stable; committed level and verifier checked on every reply. End to end: the real binary with -unstable=false must answer every WRITE FILE_SYNC and lose nothing at a SIGKILL right after a reply; verifiers compared across real process instances.",
    note="same disk model as C01", ref="§4 C07"),
  "C08": dict(cat="exploration", engine="seq", tech="history monitor binding every issued handle to one object; dead-handle probes of every procedure and handle position; sweep over the whole inode table",
-   text="Inode-reuse-heavy sequences with restarts; handle/object bijection; dead and reused-number handles must be answered NFS3ERR_STALE everywhere. Inode-table sweep: every inode number up to the last is handed out, used through its handle, freed and handed out again after a restart.",
+   text="Inode-reuse-heavy sequences with restarts; handle/object bijection; dead and reused-number handles must be answered NFS3ERR_STALE everywhere. Inode-table sweep: every inode number up to the last is handed out, used through its handle, freed and handed out again after a restart. With exactly one inode number free it cycles through directory / symbolic link / file with warm caches; objects used through their handles are replaced by a rename over their name and the old handle is probed in the same procedures; creations handed a half-freed inode are parked at their abort while their directory is replaced.",
    note="inputs are sampled", ref="§4 C08"),
  "C09": dict(cat="exploration", engine="seq", tech="before/after state monitor around every failing RPC on nearly-full disks (tree, free counts, fsck, cache coherence)",
    text="On nearly full disks (and, for requests that fail only at commit time because the journal rejects them, on a roomy one) every failing RPC is followed by a comparison of free counts, the whole tree against the reference (where it never happened), fsck and cache/disk coherence.",
    note="counts, not numbers, are compared (next-fit pointers may move)", ref="§4 C09"),
  "C10": dict(cat="exploration", engine="seq", tech="differential monitor live server vs. server recovered from its image vs. clean restart, plus cache/disk coherence invariant",
-   text="At flushed quiescent points the live server is compared (handles, attributes, times, listing order, bytes) with a twin recovered from a copy of the disk and with itself after a clean restart; cached inodes, name caches and allocators are compared with the logical disk. After concurrent histories: flush, restart, the tree and all handles must be unchanged. End to end: the real binary on a file disk, clean shutdown by SIGINT, restart on the same file, whole tree and handles unchanged.",
+   text="At flushed quiescent points the live server is compared (handles, attributes, times, listing order, bytes) with a twin recovered from a copy of the disk and with itself after a clean restart; cached inodes, name caches and allocators are compared with the logical disk. After concurrent histories: flush, restart, the tree and all handles must be unchanged. End to end: the real binary on a file disk, clean shutdown by SIGINT, restart on the same file, whole tree and handles unchanged. Creations carry client times and permission bits, SETATTR sets mode and owner; mode, nlink, uid, gid, rdev, fsid and ctime take part in the comparison.",
    note="quiescent points only", ref="§4 C10"),
  "C11": dict(cat="exploration", engine="hostile", tech="crash/hang monitor on a child process under structured hostile argument generation and byte-level mutation of framed RPC messages",
    text="Hostile argument values for all NFS and MOUNT procedures of nfs.Nfs and simple.Nfs in several file-system states; the child must not die, must reply, and must pass the canary afterwards. End to end: hostile and plausible requests over TCP to the real cmd/go-nfsd process, which must stay alive and keep agreeing with the reference.",
    note="inputs are sampled; hang criterion of DESIGN §2.6", ref="§4 C11"),
  "C12": dict(cat="exploration", engine="seq", tech="content monitor: every written byte is f(write id, offset) != 0; READs and dumps compared with the reference; free-space sweep",
-   text="Block-recycling sequences on small disks with shrink/regrow to unaligned sizes, sparse writes, and a sweep that hands out every free block and reads it back.",
+   text="Block-recycling sequences on small disks with shrink/regrow to unaligned sizes, sparse writes, and a sweep that hands out every free block and reads it back. One inode-table job: the only free number cycles through the kinds, a new regular file must start empty.",
    note="inputs are sampled", ref="§4 C12"),
  "C13": dict(cat="exploration", engine="enum", tech="page-protocol monitor over READDIR/READDIRPLUS enumerations with all limit classes and mutations between pages",
    text="Enumerations of directories of several shapes with count/dircount/maxcount classes; completeness, no duplicates, progress, termination within slots+2 calls, ids/handles/attributes cross-checked by LOOKUP; every directory left behind by concurrent and abort-window histories is enumerated page by page as well.",
    note="inputs are sampled", ref="§4 C13"),
  "C14": dict(cat="exploration", engine="race", tech="Go race detector over repeated concurrent stress (conflicting RPCs, shrinker, restart, statistics)",
-   text="The harness is built with -race and runs the conflicting concurrent workloads repeatedly; any report with a repository or GoJournal frame is a violation.",
+   text="The harness is built with -race and runs the conflicting concurrent workloads repeatedly; any report with a repository or GoJournal frame is a violation. Disk-gate jobs (a request parked inside a disk read while the inode cache turns over) run in the race build too.",
    note="the race detector only sees executed interleavings", ref="§4 C14"),
  "C15": dict(cat="exploration", engine="sizes", tech="exhaustive per-size layout/bitmap/fill monitor over a dense range of disk sizes",
    text="Every size in the stated ranges is formatted by the real MakeNfs; regions, bitmaps, allocators checked; fill-to-NOSPC and delete-all on the dense range.",
@@ -59,13 +59,13 @@ CHECKS = {
    text="Values generated by reflection for every XDR type are encoded by both codecs and must give identical bytes and round-trip; arbitrary/truncated bytes must be accepted/rejected alike; each procedure number must reach its handler. End to end: all procedures through the registration done by cmd/go-nfsd's own main (real binary, TCP, MOUNT + NFS programs), replies compared with the reference, also with -stats and SIGUSR1.",
    note="rfc1813 of go-rpcgen is generated from the RFC's .x file by the same generator; hand-derived vectors guard the shared part", ref="§4 C16"),
  "C17": dict(cat="fault_enumeration", engine="simple", tech="reference-model differential + porcupine per inode + crash-image enumeration on the simple server",
-   text="Sequential differential against the 30x4096-byte model (stretches with the journal's installer held back), concurrent histories partitioned by inode, crash cuts of the disk trace with simple.Recover, and observation-crash runs (a read answered while a modification is in flight must not show what a crash at that instant loses). End to end: the real cmd/simple-nfsd binary over TCP, killed (SIGKILL) right after replies and restarted on its disk file; all 30 files must read back as the specification has them.",
+   text="Sequential differential against the 30x4096-byte model (stretches with the journal's installer held back), concurrent histories partitioned by inode, crash cuts of the disk trace with simple.Recover, and observation-crash runs (a read answered while a modification is in flight must not show what a crash at that instant loses). End to end: the real cmd/simple-nfsd binary over TCP, killed (SIGKILL) right after replies and restarted on its disk file; all 30 files must read back as the specification has them. Every recovered image is followed by a continuation (three files rewritten, all read back, a second crash).",
    note="same disk model as C01", ref="§4 C17"),
  "C18": dict(cat="fault_enumeration", engine="kvs", tech="unique-id model + porcupine + crash-image enumeration on the KVS",
    text="Values carry unique ids; overlapping MultiPuts from several clients; linearizability; crash cuts: all-or-nothing per MultiPut and durability of acknowledged ones; stretches with the installer held back (gets served from the memory log); crash cuts next to callers whose oversized puts are refused.",
    note="same disk model as C01", ref="§4 C18"),
  "C19": dict(cat="exploration", engine="limits", tech="boundary differential at the limits announced by FSINFO/PATHCONF (limit-1, limit, limit+1)",
-   text="Names, write sizes and file sizes around the announced limits: within => success and normal behaviour afterwards; beyond => error and no effect.",
+   text="Names, write sizes and file sizes around the announced limits: within => success and normal behaviour afterwards; beyond => error and no effect. Directories of maximum-length names are listed page by page with small limits; over-long extensions of existing maximum-length names must be refused.",
    note="limits are read from the replies, not hard-coded", ref="§4 C19"),
 }
 
